@@ -1,0 +1,9 @@
+//go:build !verif
+
+package object
+
+// verifEnabled is false unless the `verif` build tag is set;
+// guarded yield points are then removed by the compiler.
+const verifEnabled = false
+
+func verifPoint(name string) {}
